@@ -133,8 +133,21 @@ def sharing_scenario(rng, enc):
     followed by a random continuation (the property's 'automata that may share one transition table')"""
     A = small_ta(rng, 0)
     sa = sorted(gen.states_of(A))
-    kind = rng.randrange(3)
-    if kind == 0 or len(sa) < 2:
+    kind = rng.randrange(4)
+    if kind == 3:
+        # accumulate a union by assigning each result back into the accumulator (the result shares the accumulator's table but
+        # differs in nullary rules / final states)
+        B, C = small_ta(rng, 1), small_ta(rng, 2)
+        if (gen.states_of(A) & gen.states_of(B)) or (gen.states_of(A) & gen.states_of(C)) or (gen.states_of(B) & gen.states_of(C)):
+            B = gen.rename(B, {q: q + 100 for q in range(40)})
+            C = gen.rename(C, {q: q + 200 for q in range(40)})
+        op1, op2 = rng.choice(["uniondisj", "union"]), rng.choice(["uniondisj", "union", "isect"])
+        if op1 == "union":
+            op2 = rng.choice(["union", "isect"])          # after a renumbering Union the state sets are no longer known to be disjoint
+        steps = [["load", 0, A], ["load", 1, B], [op1, 2, 0, 1], ["assign", 0, 2], ["destroy", 1], ["load", 1, C], [op2, 3, 0, 1],
+                 ["assign", 0, 3], [rng.choice(["useless", "unreach"]), 1 if False else 2, 0] if False else ["destroy", 2]]
+        steps += [[rng.choice(["useless", "unreach"]), 2, 0]]
+    elif kind == 0 or len(sa) < 2:
         # copies of one automaton with different final states
         steps = [["load", 0, A], ["copy", 1, 0], ["final", 0, rng.choice(sa)], ["final", 1, rng.choice(sa)],
                  [rng.choice(["isect", "union"]), 2, 0, 1], ["copy", 3, 1], ["final", 3, rng.choice(sa)], [rng.choice(["isect", "union"]), 2 if False else 0, 3, 1]]
